@@ -7,6 +7,7 @@ import PjVerif.Drive.Query
 import PjVerif.Drive.Clone
 import PjVerif.Drive.CritPath
 import PjVerif.Drive.Csv
+import PjVerif.Drive.Print
 open Lean Pj.Drive
 
 def dispatch (j : Json) : Json :=
@@ -20,6 +21,7 @@ def dispatch (j : Json) : Json :=
   | "cp" => runCp j
   | "csvtext" => runCsvText j
   | "csvrec" => runCsvRec j
+  | "print" => runPrint j
   | f => mkObj [("id", fld j "id"), ("error", .str s!"unknown family {f}")]
 
 def main : IO Unit := do
